@@ -1021,8 +1021,9 @@ class Commander:
         for application_name, application_job in list(self.current_jobs.items()):
             if not application_job.in_progress():
                 # nothing more to do for this application
-                self.after(application_job)
+                # remove the job first because after() may trigger a forced state event that re-enters this method
                 del self.current_jobs[application_name]
+                self.after(application_job)
         # if no more current_jobs, pop lower sequence from planned_jobs and trigger application_jobs
         self.logger.debug(f'{self.class_name}.next: current_jobs={list(self.current_jobs.keys())}')
         if self.planned_jobs and not self.current_jobs:
